@@ -1,12 +1,565 @@
-//! C14: harness not built yet.
+//! C14: a chunked answer carries the complete result exactly once.
+//!
+//! The REAL `InteractionModel` (device side: `Matter` transport + `Responder` + IM over a harness
+//! cluster) answers read requests issued by a raw client exchange over an in-process pipe.  The
+//! harness cluster has 16 octet-string attributes and 6 list-of-octet-string attributes whose
+//! value lengths the generator picks per read (just fit / just do not fit / lists longer than a
+//! message).  Every `ReportData` chunk is captured raw, decoded with the real TLV reader (step
+//! capped), and rendered as: total size, MoreChunks / SuppressResponse flags, well-formedness, and
+//! per attribute report its kind, attribute, encoded size, value length(s) and whether the value
+//! bytes are the configured ones.
+//!
+//! op:   `rd <item>…`, item = `s<attr>:<len>` | `l<attr>:<len>,<len>…` | `l<attr>:-`
+//! out:  `<status> | <chunk>;<chunk>…`, chunk = `<size>/<more><suppress><wf>/<piece>,<piece>…`
+//!       piece = `S<attr>:<enc>:<len>:<ok>` | `W<attr>:<enc>:<lens|->:<ok>` | `E<attr>:<enc>` |
+//!               `I<attr>:<enc>:<len>:<ok>` | `X<attr>:<enc>` | `?`
+#[path = "c14_e2e.rs"]
+mod e2e;
+
+use core::future::Future;
+use core::pin::pin;
+use core::task::{Context, Poll, RawWaker, RawWakerVTable, Waker};
+
+use embassy_futures::select::{select, Either};
+
+use crate::proto::{parse_cases, Case, Out};
+use crate::rng::Rng;
 use crate::Args;
 
-pub fn gen(_a: &Args) -> String {
-    eprintln!("C14: harness not built yet");
-    std::process::exit(2);
+use e2e::{pattern, Runner, CLUSTER_ID, ENDPOINT, N_LIST, N_SCALAR, SIZES};
+use rs_matter::crypto::Crypto;
+use rs_matter::error::Error;
+use rs_matter::im::{IMStatusCode, OpCode, StatusResp};
+use rs_matter::tlv::{TLVElement, TLVTag, TLVWrite};
+use rs_matter::transport::exchange::MAX_EXCHANGE_TX_BUF_SIZE;
+
+fn noop_waker() -> Waker {
+    fn clone(_: *const ()) -> RawWaker {
+        RawWaker::new(core::ptr::null(), &VTABLE)
+    }
+    fn noop(_: *const ()) {}
+    static VTABLE: RawWakerVTable = RawWakerVTable::new(clone, noop, noop, noop);
+    unsafe { Waker::from_raw(RawWaker::new(core::ptr::null(), &VTABLE)) }
 }
 
-pub fn replay(_a: &Args) -> String {
-    eprintln!("C14: harness not built yet");
-    std::process::exit(2);
+/// poll a future at most `max` times (no wall clock involved: the mock time driver never advances)
+fn run_bounded<F: Future>(f: F, max: u64) -> Option<F::Output> {
+    let mut f = pin!(f);
+    let w = noop_waker();
+    let mut cx = Context::from_waker(&w);
+    for _ in 0..max {
+        if let Poll::Ready(v) = f.as_mut().poll(&mut cx) {
+            return Some(v);
+        }
+    }
+    None
+}
+
+#[derive(Clone, Debug)]
+enum Item {
+    Scalar(u32, usize),
+    List(u32, Vec<usize>),
+}
+
+fn parse_items(op: &str) -> Vec<Item> {
+    let mut v = Vec::new();
+    for w in op.split_whitespace().skip(1) {
+        let (kind, rest) = w.split_at(1);
+        let mut it = rest.splitn(2, ':');
+        let attr: u32 = it.next().and_then(|x| x.parse().ok()).unwrap_or(0);
+        let val = it.next().unwrap_or("0");
+        match kind {
+            "s" => v.push(Item::Scalar(attr % N_SCALAR, val.parse().unwrap_or(0))),
+            _ => {
+                let lens = if val == "-" { Vec::new() } else { val.split(',').filter_map(|x| x.parse().ok()).collect() };
+                v.push(Item::List(N_SCALAR + attr % N_LIST, lens))
+            }
+        }
+    }
+    v
+}
+
+fn configure(items: &[Item]) {
+    let mut s = SIZES.lock().unwrap();
+    for it in items {
+        match it {
+            Item::Scalar(a, len) => s.scalars[*a as usize] = *len,
+            Item::List(a, lens) => s.lists[(*a - N_SCALAR) as usize] = lens.clone(),
+        }
+    }
+}
+
+/// decode one `AttributeReportIB` (an anonymous struct) with the real TLV reader
+fn render_piece(e: &TLVElement<'_>, raw_len: usize, next_idx: &mut [usize; N_LIST as usize]) -> String {
+    let mut inner = || -> Result<String, Error> {
+        let s = e.structure()?;
+        if let Some(data) = s.find_ctx(1).ok().filter(|e| !e.is_empty()) {
+            let d = data.structure()?;
+            let path = d.find_ctx(1)?.list()?;
+            let attr = path.find_ctx(4)?.u32()?;
+            let ep = path.find_ctx(2)?.u16()?;
+            let cl = path.find_ctx(3)?.u32()?;
+            if ep != ENDPOINT || cl != CLUSTER_ID {
+                return Ok("?".into());
+            }
+            let li = path.find_ctx(5).ok().filter(|e| !e.is_empty());
+            let val = d.find_ctx(2)?;
+            if attr < N_SCALAR {
+                let v = val.str()?;
+                let ok = v == pattern(attr, 0, v.len()).as_slice();
+                Ok(format!("S{}:{}:{}:{}", attr, raw_len, v.len(), ok as u8))
+            } else if let Some(li) = li {
+                // list index null = append one element
+                if li.null().is_ok() {
+                    let v = val.str()?;
+                    let slot = &mut next_idx[(attr - N_SCALAR) as usize % N_LIST as usize];
+                    let ok = v == pattern(attr, *slot, v.len()).as_slice();
+                    *slot += 1;
+                    Ok(format!("I{}:{}:{}:{}", attr - N_SCALAR, raw_len, v.len(), ok as u8))
+                } else {
+                    Ok("?".into())
+                }
+            } else {
+                let arr = val.array()?;
+                let mut lens = Vec::new();
+                let mut ok = true;
+                let mut steps = 0usize;
+                for (k, el) in arr.iter().enumerate() {
+                    steps += 1;
+                    if steps > 4096 {
+                        return Ok("?".into());
+                    }
+                    let v = el?.str()?;
+                    ok &= v == pattern(attr, k, v.len()).as_slice();
+                    lens.push(v.len().to_string());
+                }
+                if lens.is_empty() {
+                    next_idx[(attr - N_SCALAR) as usize % N_LIST as usize] = 0;
+                    Ok(format!("E{}:{}", attr - N_SCALAR, raw_len))
+                } else {
+                    Ok(format!("W{}:{}:{}:{}", attr - N_SCALAR, raw_len, lens.join("+"), ok as u8))
+                }
+            }
+        } else if let Some(st) = s.find_ctx(0).ok().filter(|e| !e.is_empty()) {
+            let d = st.structure()?;
+            let path = d.find_ctx(0)?.list()?;
+            let attr = path.find_ctx(4)?.u32()?;
+            Ok(format!("X{}:{}", attr, raw_len))
+        } else {
+            Ok("?".into())
+        }
+    };
+    inner().unwrap_or_else(|e| format!("?{:?}", e.code()))
+}
+
+struct ChunkInfo {
+    more: bool,
+    text: String,
+}
+
+fn render_chunk(payload: &[u8], next_idx: &mut [usize; N_LIST as usize]) -> ChunkInfo {
+    let mut more = false;
+    let mut suppress = false;
+    let mut wf = true;
+    let mut pieces: Vec<String> = Vec::new();
+    let root = TLVElement::new(payload);
+    let parsed = (|| -> Result<(), Error> {
+        let s = root.structure()?;
+        // top-level fields, in order (step capped: the iterator repeats errors on malformed input)
+        let mut fields: Vec<TLVElement<'_>> = Vec::new();
+        for (n, el) in s.iter().enumerate() {
+            if n > payload.len() + 2 {
+                wf = false;
+                break;
+            }
+            fields.push(el?);
+        }
+        // the struct must span the whole payload: after the last field only its end-of-container
+        let mut seen_rev = false;
+        for (i, f) in fields.iter().enumerate() {
+            // what follows this field: the next field, or the closing byte of the message
+            let after = fields.get(i + 1).map(|n| n.raw_data().len()).unwrap_or(1);
+            match f.ctx()? {
+                3 => more = f.bool()?,
+                4 => suppress = f.bool()?,
+                0xff => {
+                    seen_rev = true;
+                    if i + 1 != fields.len() || f.raw_data().len() != 3 + 1 {
+                        wf = false;
+                    }
+                }
+                1 => {
+                    let arr = f.array()?;
+                    let mut items: Vec<TLVElement<'_>> = Vec::new();
+                    for (n, el) in arr.iter().enumerate() {
+                        if n > payload.len() + 2 {
+                            wf = false;
+                            break;
+                        }
+                        items.push(el?);
+                    }
+                    for (j, it) in items.iter().enumerate() {
+                        let start = it.raw_data().len();
+                        // the last report is followed by the array's end-of-container
+                        let end = items.get(j + 1).map(|n| n.raw_data().len()).unwrap_or(after + 1);
+                        let len = start.saturating_sub(end);
+                        pieces.push(render_piece(it, len, next_idx));
+                    }
+                }
+                _ => {}
+            }
+        }
+        if !seen_rev {
+            wf = false;
+        }
+        Ok(())
+    })();
+    if parsed.is_err() {
+        wf = false;
+    }
+    ChunkInfo {
+        more,
+        text: format!(
+            "{}/{}{}{}/{}",
+            payload.len(),
+            more as u8,
+            suppress as u8,
+            wf as u8,
+            if pieces.is_empty() { "-".to_string() } else { pieces.join(",") }
+        ),
+    }
+}
+
+/// one read interaction against the real IM; returns the rendered output
+async fn read_once<C: Crypto>(runner: &Runner<C>, items: &[Item]) -> String {
+    let mut chunks: Vec<String> = Vec::new();
+    let mut next_idx = [0usize; N_LIST as usize];
+    let status = async {
+        let mut ex = runner.initiate_exchange().await?;
+        ex.send_with(|_, wb| {
+            wb.start_struct(&TLVTag::Anonymous)?;
+            wb.start_array(&TLVTag::Context(0))?;
+            for it in items {
+                let attr = match it {
+                    Item::Scalar(a, _) => *a,
+                    Item::List(a, _) => *a,
+                };
+                wb.start_list(&TLVTag::Anonymous)?;
+                wb.u16(&TLVTag::Context(2), ENDPOINT)?;
+                wb.u32(&TLVTag::Context(3), CLUSTER_ID)?;
+                wb.u32(&TLVTag::Context(4), attr)?;
+                wb.end_container()?;
+            }
+            wb.end_container()?;
+            wb.bool(&TLVTag::Context(3), false)?;
+            wb.u8(&TLVTag::Context(0xff), 13)?;
+            wb.end_container()?;
+            Ok(Some(OpCode::ReadRequest.into()))
+        })
+        .await?;
+        loop {
+            ex.recv_fetch().await?;
+            let (opcode, info) = {
+                let rx = ex.rx()?;
+                (rx.meta().proto_opcode, render_chunk(rx.payload(), &mut next_idx))
+            };
+            if opcode != OpCode::ReportData as u8 {
+                let rx = ex.rx()?;
+                let st = StatusResp::from_tlv_payload(rx.payload());
+                ex.rx_done()?;
+                let _ = ex.acknowledge().await;
+                return Ok::<String, Error>(format!("status:{}", st));
+            }
+            ex.rx_done()?;
+            let more = info.more;
+            chunks.push(info.text);
+            if chunks.len() > 200 {
+                return Ok("toomany".into());
+            }
+            if more {
+                ex.send_with(|_, wb| {
+                    StatusResp::write(wb, IMStatusCode::Success)?;
+                    Ok(Some(OpCode::StatusResponse.into()))
+                })
+                .await?;
+            } else {
+                // reads are sent with SuppressResponse; acknowledge and finish
+                let _ = ex.acknowledge().await;
+                return Ok("ok".into());
+            }
+        }
+    }
+    .await;
+    let st = match status {
+        Ok(s) => s,
+        Err(e) => format!("err:{:?}", e.code()),
+    };
+    format!("{} | {}", st, if chunks.is_empty() { "-".to_string() } else { chunks.join(";") })
+}
+
+trait StatusPayload {
+    fn from_tlv_payload(p: &[u8]) -> String;
+}
+impl StatusPayload for StatusResp {
+    fn from_tlv_payload(p: &[u8]) -> String {
+        let e = TLVElement::new(p);
+        match e.structure().and_then(|s| s.find_ctx(0)).and_then(|c| c.u8()) {
+            Ok(v) => v.to_string(),
+            Err(_) => "?".into(),
+        }
+    }
+}
+
+/// a future that gives up (`None`) after `left` polls
+struct Budget<F> {
+    f: core::pin::Pin<Box<F>>,
+    left: u64,
+}
+
+impl<F: Future> Future for Budget<F> {
+    type Output = Option<F::Output>;
+    fn poll(mut self: core::pin::Pin<&mut Self>, cx: &mut Context<'_>) -> Poll<Self::Output> {
+        if self.left == 0 {
+            return Poll::Ready(None);
+        }
+        self.left -= 1;
+        match self.f.as_mut().poll(cx) {
+            Poll::Ready(v) => Poll::Ready(Some(v)),
+            Poll::Pending => Poll::Pending,
+        }
+    }
+}
+
+const OP_POLLS: u64 = 300_000;
+
+/// run the ops of all cases against the real device; a read that gets no answer within the poll
+/// budget is reported as `hang` and the remaining ops continue on a fresh device
+fn drive(cases: &[Case], out: &mut Out) {
+    let flat: Vec<(usize, usize)> = cases.iter().enumerate().flat_map(|(ci, c)| (0..c.ops.len()).map(move |oi| (ci, oi))).collect();
+    let mut pos = 0usize;
+    let mut k = String::new();
+    let mut started: Vec<bool> = vec![false; cases.len()];
+    let mut multi: Vec<bool> = vec![false; cases.len()];
+    let mut devices = 0;
+    while pos < flat.len() || (flat.is_empty() && devices == 0) {
+        devices += 1;
+        let runner = e2e::new_runner();
+        runner.add_default_acl();
+        let res = run_bounded(
+            async {
+                let device = runner.run();
+                let client = async {
+                    if k.is_empty() {
+                        // calibration of the encoded-size constants on the real encoder
+                        k = calibrate(&runner).await;
+                    }
+                    while pos < flat.len() {
+                        let (ci, oi) = flat[pos];
+                        let c = &cases[ci];
+                        if !started[ci] {
+                            started[ci] = true;
+                            out.case(c.id, &format!("rd {} {}", MAX_EXCHANGE_TX_BUF_SIZE, k));
+                        }
+                        let op = &c.ops[oi];
+                        let items = parse_items(op);
+                        configure(&items);
+                        let o = Budget { f: Box::pin(read_once(&runner, &items)), left: OP_POLLS }.await;
+                        pos += 1;
+                        match o {
+                            Some(o) => {
+                                tally(&o, out);
+                                out.op(op, &o);
+                                if o.split(" | ").nth(1).map(|c| c.contains(';')).unwrap_or(false) && !multi[ci] {
+                                    multi[ci] = true;
+                                    out.buf.push_str("#nt\n");
+                                }
+                            }
+                            None => {
+                                out.stat("reads_without_answer", 1);
+                                out.op(op, "hang | -");
+                                return;
+                            }
+                        }
+                    }
+                };
+                match select(device, client).await {
+                    Either::First(r) => Some(format!("device ended: {:?}", r.map_err(|e| e.code()))),
+                    Either::Second(()) => None,
+                }
+            },
+            u64::MAX,
+        );
+        if let Some(Some(why)) = res {
+            out.buf.push_str(&format!("# {}\n", why));
+            if pos < flat.len() {
+                let (ci, oi) = flat[pos];
+                out.op(&cases[ci].ops[oi], &format!("devend | -"));
+                pos += 1;
+            }
+        }
+        if flat.is_empty() {
+            break;
+        }
+    }
+    out.stat("devices", devices);
+}
+
+fn tally(o: &str, out: &mut Out) {
+    let n = o.split(" | ").nth(1).map(|c| if c == "-" { 0 } else { c.split(';').count() }).unwrap_or(0);
+    out.stat(&format!("chunks_{}", if n >= 6 { "6plus".to_string() } else { n.to_string() }), 1);
+    if o.contains("/E") || o.contains(",E") {
+        out.stat("reads_with_split_list", 1);
+    }
+    if !o.starts_with("ok") {
+        out.stat("reads_not_ok", 1);
+    }
+}
+
+/// measure the constant parts of the encodings: `KS KW KE KI`
+async fn calibrate<C: Crypto>(runner: &Runner<C>) -> String {
+    let enc_of = |o: &str, kind: char| -> Option<usize> {
+        o.split(" | ").nth(1)?.split(';').flat_map(|c| c.splitn(3, '/').nth(2).unwrap_or("").split(',')).find_map(|p| {
+            if p.starts_with(kind) {
+                p.split(':').nth(1)?.parse().ok()
+            } else {
+                None
+            }
+        })
+    };
+    let i1 = vec![Item::Scalar(0, 0)];
+    configure(&i1);
+    let o1 = read_once(runner, &i1).await;
+    let ks = enc_of(&o1, 'S').map(|e| e as i64 - 1).unwrap_or(-1);
+    let i2 = vec![Item::List(N_SCALAR, vec![3, 3])];
+    configure(&i2);
+    let o2 = read_once(runner, &i2).await;
+    let kw = enc_of(&o2, 'W').map(|e| e as i64 - 2 * (1 + 1 + 3)).unwrap_or(-1);
+    let i3 = vec![Item::List(N_SCALAR, vec![100; 40])];
+    configure(&i3);
+    let o3 = read_once(runner, &i3).await;
+    let ke = enc_of(&o3, 'E').map(|e| e as i64).unwrap_or(-1);
+    let ki = enc_of(&o3, 'I').map(|e| e as i64 - 1 - 100).unwrap_or(-1);
+    format!("{} {} {} {}", ks, kw, ke, ki)
+}
+
+// ---------------------------------------------------------------- generator
+
+fn gen_read(r: &mut Rng, k: (usize, usize, usize, usize), force_multi: bool, out: &mut Out) -> String {
+    let (ks, _kw, ke, ki) = k;
+    let limit = MAX_EXCHANGE_TX_BUF_SIZE - 24;
+    let mut items: Vec<String> = Vec::new();
+    let mut used = 3usize; // struct start + attribute array start
+    let mut scalars: Vec<u32> = (0..N_SCALAR).collect();
+    let mut lists: Vec<u32> = (0..N_LIST).collect();
+    let n = r.range(1, 14) as usize;
+    let enc = |k0: usize, len: usize| k0 + if len < 256 { 1 } else { 2 } + len;
+    if force_multi {
+        // two values that cannot share a message: the answer has at least two chunks
+        for _ in 0..2 {
+            let a = scalars.remove(r.below(scalars.len() as u64) as usize);
+            let len = r.range(600, 900) as usize;
+            let e = enc(ks, len);
+            used = if used + e > limit { 3 + e } else { used + e };
+            items.push(format!("s{}:{}", a, len));
+        }
+    }
+    for _ in 0..n {
+        let want_list = r.chance(1, 4) && !lists.is_empty();
+        if !want_list && scalars.is_empty() {
+            break;
+        }
+        if want_list {
+            let a = lists.remove(r.below(lists.len() as u64) as usize);
+            let cnt = match r.below(6) {
+                0 => 0,
+                1 => r.range(1, 3),
+                2 | 3 => r.range(3, 12),
+                _ => r.range(10, 60),
+            } as usize;
+            let mut lens = Vec::new();
+            for _ in 0..cnt {
+                let len = match r.below(8) {
+                    0 => 0,
+                    1..=4 => r.range(1, 40),
+                    5 | 6 => r.range(40, 300),
+                    _ => {
+                        // element that exactly fills what is left of the current chunk
+                        let room = limit.saturating_sub(used);
+                        out.stat("gen_elem_boundary", 1);
+                        let target = room as i64 + [-2i64, -1, 0, 1, 2][r.below(5) as usize];
+                        (target - ki as i64 - 2).clamp(0, 900) as u64
+                    }
+                } as usize;
+                lens.push(len);
+            }
+            // generator's rough idea of the fill level (exact boundaries are the model's business)
+            for l in &lens {
+                let e = enc(ki, *l);
+                used = if used + e > limit { 3 + e } else { used + e };
+            }
+            let _ = ke;
+            items.push(format!("l{}:{}", a, if lens.is_empty() { "-".to_string() } else { lens.iter().map(|x| x.to_string()).collect::<Vec<_>>().join(",") }));
+        } else {
+            let a = scalars.remove(r.below(scalars.len() as u64) as usize);
+            let len = match r.below(10) {
+                0 => 0,
+                1..=3 => r.range(1, 60),
+                4 | 5 => r.range(60, 500),
+                6 => r.range(500, limit as u64 - 60),
+                _ => {
+                    // a value that just fits / exactly fills / just does not fit the current chunk
+                    let room = limit.saturating_sub(used);
+                    out.stat("gen_scalar_boundary", 1);
+                    let target = room as i64 + [-3i64, -2, -1, 0, 0, 1, 2][r.below(7) as usize];
+                    let lb = if target - ks as i64 - 1 < 256 { 1 } else { 2 };
+                    (target - ks as i64 - lb).clamp(0, (limit - 60) as i64) as u64
+                }
+            } as usize;
+            let e = enc(ks, len);
+            used = if used + e > limit { 3 + e } else { used + e };
+            items.push(format!("s{}:{}", a, len));
+        }
+    }
+    format!("rd {}", items.join(" "))
+}
+
+pub fn gen(a: &Args) -> String {
+    let mut r = Rng::new(a.seed);
+    let mut out = Out::default();
+    out.buf.push_str("#rule a case is a sequence of read requests against the real InteractionModel over a harness cluster (16 octet-string attributes, 6 list attributes) with generator-chosen value lengths: empty, small, hundreds of bytes, nearly a whole message, and lengths computed to end 3..0 bytes before / exactly at / 1..2 bytes past the space left in the current chunk, lists from empty to 60 elements; non-trivial = at least one read of the case was answered in more than one chunk (the first read of every generated case is built that way); distinct = by operation list\n");
+    // constants first (one throw-away device), so that the generator can aim at the boundaries
+    let k = {
+        let runner = e2e::new_runner();
+        runner.add_default_acl();
+        run_bounded(
+            async {
+                match select(runner.run(), calibrate(&runner)).await {
+                    Either::First(_) => "0 0 0 0".to_string(),
+                    Either::Second(k) => k,
+                }
+            },
+            50_000_000,
+        )
+        .unwrap_or_else(|| "0 0 0 0".to_string())
+    };
+    let kv: Vec<usize> = k.split_whitespace().map(|x| x.parse::<i64>().unwrap_or(0).max(0) as usize).collect();
+    let kt = (kv[0], kv[1], kv[2], kv[3]);
+    let n_cases = if a.thorough { 6000 } else { 500 };
+    let mut cases = Vec::new();
+    for id in 0..n_cases {
+        let mut cr = r.fork();
+        let n_ops = cr.range(3, 10);
+        let ops = (0..n_ops).map(|i| gen_read(&mut cr, kt, i == 0, &mut out)).collect();
+        cases.push(Case { id, kind: "rd".into(), ops });
+    }
+    drive(&cases, &mut out);
+    out.finish()
+}
+
+pub fn replay(a: &Args) -> String {
+    let text = std::fs::read_to_string(a.input.as_ref().expect("--in")).expect("read input");
+    let mut out = Out::default();
+    let cases = parse_cases(&text);
+    drive(&cases, &mut out);
+    out.finish()
 }
